@@ -19,6 +19,7 @@ import unified_planning.engines as engines
 from unified_planning.exceptions import UPProblemDefinitionError
 from unified_planning.engines.mixins.compiler import CompilationKind, CompilerMixin
 from unified_planning.engines.results import CompilerResult
+from unified_planning.engines.compilers.utils import grounded_problem_kind
 from unified_planning.model import InstantaneousAction, Action, FNode, Fluent
 from unified_planning.model.walkers import ExpressionQuantifiersRemover
 from unified_planning.model import Problem, ProblemKind, MinimizeActionCosts
@@ -75,12 +76,27 @@ class TrajectoryConstraintsRemover(engines.engine.Engine, CompilerMixin):
     def resulting_problem_kind(
         problem_kind: ProblemKind, compilation_kind: Optional[CompilationKind] = None
     ) -> ProblemKind:
-        new_kind = problem_kind.clone()
+        new_kind = grounded_problem_kind(problem_kind)
         if new_kind.has_trajectory_constraints() or new_kind.has_state_invariants():
             new_kind.unset_constraints_kind("TRAJECTORY_CONSTRAINTS")
             new_kind.unset_constraints_kind("STATE_INVARIANTS")
             new_kind.set_conditions_kind("NEGATIVE_CONDITIONS")
             new_kind.set_conditions_kind("DISJUNCTIVE_CONDITIONS")
+            # the monitoring atoms of the constraints other than `always` are set by conditional effects
+            if problem_kind.has_trajectory_constraints():
+                new_kind.set_effects_kind("CONDITIONAL_EFFECTS")
+            # the regression of a constraint through an action replaces the fluents of the constraint by the
+            # expressions the action assigns to them, whose operators become operators of conditions
+            if (
+                new_kind.has_fluents_in_boolean_assignments()
+                or new_kind.has_static_fluents_in_boolean_assignments()
+                or new_kind.has_interpreted_functions_in_boolean_assignments()
+            ):
+                new_kind.set_conditions_kind("EQUALITIES")
+                new_kind.set_conditions_kind("EXISTENTIAL_CONDITIONS")
+                new_kind.set_conditions_kind("UNIVERSAL_CONDITIONS")
+                if new_kind.has_interpreted_functions_in_boolean_assignments():
+                    new_kind.set_conditions_kind("INTERPRETED_FUNCTIONS_IN_CONDITIONS")
         return new_kind
 
     @staticmethod
